@@ -74,6 +74,11 @@ type PeerOpts struct {
 	ResumeResponse bool
 	// resumption (scripted server)
 	ResumeReply string // "AUTHORIZED", "SID_NOT_FOUND", "GARBAGE", "CLOSE", "DENIED"
+	// FS sub-protocol
+	FSPath     *string      // scripted server: the path it announces (nil: a fresh honest /tmp/FS_xxx)
+	FSInspect  func(clientResult int) // scripted server: called after the client's result arrived, before the verdict is sent
+	FSVerdict  *int         // scripted server: verdict to send (nil: honest check); -99 = close without answering
+	FSLeave    func(path string) int // scripted client: what it leaves at the announced path; returns the result it reports
 	// TOKEN (AKEP2) sub-protocol
 	TokenText    string // scripted client: the "header.payload" text it presents
 	TokenSig     []byte // scripted client: the signature it knows (nil: it does not know one and sends a random proof)
@@ -98,6 +103,11 @@ type PeerLog struct {
 	TokenClaimedID  string // scripted server: identity claimed in step 1
 	PeerProofOK     bool   // the peer's proof matched the reference AKEP2 computation
 	PeerProofSeen   bool
+	// FS sub-protocol observations
+	FSPathSeen     string // scripted client: path announced by the server
+	FSClientResult int    // scripted server: result the client reported
+	FSResultSeen   bool
+	FSServerResult int    // scripted client: verdict received
 }
 
 func (l *PeerLog) step(f string, a ...any) { l.Steps = append(l.Steps, fmt.Sprintf(f, a...)) }
@@ -329,11 +339,17 @@ func ScriptedServer(conn *BufConn, o PeerOpts, limit time.Duration) (log *PeerLo
 				log.AuthCompleted = "CLAIMTOBE"
 				log.step("claimtobe completed for %s", user)
 			case BitFS:
-				dir, err := os.MkdirTemp("/tmp", "FS_")
-				if err != nil {
-					return fail(err)
+				var dir string
+				if o.FSPath != nil {
+					dir = *o.FSPath
+				} else {
+					d, err := os.MkdirTemp("/tmp", "FS_")
+					if err != nil {
+						return fail(err)
+					}
+					_ = os.Remove(d)
+					dir = d
 				}
-				_ = os.Remove(dir)
 				pm := message.NewMessageForStream(s)
 				_ = pm.PutString(ctx, dir)
 				if err := pm.FinishMessage(ctx); err != nil {
@@ -343,10 +359,20 @@ func ScriptedServer(conn *BufConn, o PeerOpts, limit time.Duration) (log *PeerLo
 				if err != nil {
 					return fail(err)
 				}
+				log.FSClientResult, log.FSResultSeen = res, true
+				if o.FSInspect != nil {
+					o.FSInspect(res)
+				}
 				ok := -1
 				if res == 0 {
 					if fi, err := os.Lstat(dir); err == nil && fi.IsDir() {
 						ok = 0
+					}
+				}
+				if o.FSVerdict != nil {
+					ok = *o.FSVerdict
+					if ok == -99 {
+						return fail(fmt.Errorf("peer: closing instead of sending the FS verdict"))
 					}
 				}
 				if err := sendInts(ctx, s, ok); err != nil {
@@ -592,14 +618,20 @@ func ScriptedClient(conn *BufConn, o PeerOpts, limit time.Duration) (log *PeerLo
 					return fail(err)
 				}
 				res := -1
-				if strings.HasPrefix(dir, "/tmp/FS_") && os.Mkdir(dir, 0o700) == nil {
+				log.FSPathSeen = dir
+				if o.FSLeave != nil {
+					res = o.FSLeave(dir)
+				} else if strings.HasPrefix(dir, "/tmp/FS_") && os.Mkdir(dir, 0o700) == nil {
 					res = 0
 				}
 				if err := sendInts(ctx, s, res); err != nil {
 					return fail(err)
 				}
 				ok, err := recvInt(ctx, s)
-				_ = os.Remove(dir)
+				log.FSServerResult = ok
+				if o.FSLeave == nil {
+					_ = os.Remove(dir)
+				}
 				if err != nil {
 					return fail(err)
 				}
